@@ -801,6 +801,35 @@ func main() {
 					pairs = append(pairs, pairT{ct: ct, a: base, b: v, kind: fmt.Sprintf("%s+2^%d", f.Name, sh)})
 				}
 			}
+			// letter case: a hash that folds case (ToUpper/ToLower/EqualFold-style normalisation) confuses strings the
+			// handlers compare exactly (Symbol == "FX"); hex fields keep their case in the hash as well
+			for _, f := range ct.Fields {
+				if f.Kind != "str" || extract.IsIrrelevant(f.Name) {
+					continue
+				}
+				cur := fieldOf(base, f.Name).String()
+				cands := []string{strings.ToUpper(cur), strings.ToLower(cur)}
+				if f.Class == "free" || f.Class == "nonempty" {
+					cands = append(cands, "FX", "Fx", "fx", "usdt", "USDT")
+				}
+				for k, cv := range cands {
+					a, b := clone(ct, base), clone(ct, base)
+					if k >= 2 { // explicit pairs: Fx/FX, fx/FX, usdt/USDT ...
+						fieldOf(a, f.Name).SetString(cv)
+						fieldOf(b, f.Name).SetString(strings.ToUpper(cv))
+						if f.Name == "Symbol" && ct.Field("Decimals") != nil {
+							fieldOf(a, "Decimals").SetUint(18)
+							fieldOf(b, "Decimals").SetUint(18)
+						}
+					} else {
+						fieldOf(b, f.Name).SetString(cv)
+					}
+					if fieldOf(a, f.Name).String() == fieldOf(b, f.Name).String() {
+						continue
+					}
+					pairs = append(pairs, pairT{ct: ct, a: a, b: b, kind: "case:" + f.Name})
+				}
+			}
 			// a list of numbers printed without separators would confuse [1 23] and [12 3]
 			for _, f := range ct.Fields {
 				if f.Kind != "intlist" || extract.IsIrrelevant(f.Name) {
